@@ -675,29 +675,73 @@ def cursor_attach_table(prog, rep, R):
     if not rep.check(b is not None, R, "anchor:process_cursors", "DelphiLogicalLinesReconstructor::process_cursors not found"):
         return
     loops = b.loops()
-    inner = []
+    token_loops = [(h2, L2) for h2, L2 in loops.items() if any(c.bb == h2 and (c.callee or "").endswith("Iterator::next") and "arg3" in canon(b, c.args[0]) for c in b.calls())]
+    steps = []          # (rows, effects, name of the cursor element, {text -> text} substitution, cursors already attached are filtered out before)
     for h, L in loops.items():
-        outer = [(h2, L2) for h2, L2 in loops.items() if h2 != h and h in L2]
+        outer = [(h2, L2) for h2, L2 in token_loops if h2 != h and h in L2]
         nx = [c for c in b.calls() if c.bb == h and (c.callee or "").endswith("Iterator::next")]
-        if outer and len(nx) == 1 and "arg2" in canon(b, nx[0].args[0]) and any(
-                "arg3" in canon(b, c.args[0]) for h2, _ in outer for c in b.calls() if c.bb == h2 and (c.callee or "").endswith("Iterator::next")):
-            inner.append((h, L, nx[0]))
-    if not rep.check(len(inner) == 1, R, "anchor:cursor-walk", "process_cursors no longer walks the tokens (outer loop) with one step per cursor (inner loop): found %d such loops" % len(inner)):
+        if outer and len(nx) == 1 and "arg2" in canon(b, nx[0].args[0]):
+            tt = b.blocks[nx[0].t["target"]]["term"]
+            some = ([t_ for v, t_ in tt.get("targets", []) if v == 1] or [tt.get("otherwise")])[0]
+            try:
+                tb = Table(prog, b, start=some, stop={h}, inline=1)
+            except TooComplex as e:
+                rep.fail(R, "cursor-walk-table", "one step of the cursor walk is not a loop-free decision: %s" % e)
+                return
+            steps.append((tb.rows, tb.effects, "next(" + canon(b, nx[0].args[0]) + ")@Some.0", {}, False))
+    # the same walk written with adapters: inside the loop over the tokens, `cursors.iter_mut()[.filter(not attached yet)].for_each(step)`
+    for c in b.calls():
+        if (c.callee or "") != "core::iter::traits::iterator::Iterator::for_each" or not any(c.bb in L2 for _, L2 in token_loops) or "arg2" not in canon(b, c.args[0]):
+            continue
+        clos = b.locals[c.args[1]["place"]["l"]].get("closure") if c.args[1]["k"] in ("copy", "move") and not c.args[1]["place"]["p"] else None
+        cb = prog.body(norm(clos)) if clos else None
+        if cb is None:
+            continue
+        src = canon(b, c.args[0])
+        filtered = False
+        if src.startswith("filter("):
+            fc = [k for k in b.calls() if (k.callee or "").endswith("Iterator::filter") and canon(b, k.args[0]) in src and k.bb != c.bb]
+            for k in fc:
+                fcl = b.locals[k.args[1]["place"]["l"]].get("closure") if k.args[1]["k"] in ("copy", "move") else None
+                fb = prog.body(norm(fcl)) if fcl else None
+                if fb is not None:
+                    try:
+                        ft = Table(prog, fb)
+                        # keeps exactly the elements whose token slot is None
+                        filtered = sorted((tuple((x[0], x[2]) for x in cons if x[0] == "is"), render(res)) for cons, res in ft.rows) == [((("is", "None"),), "True"), ((("is", "Some"),), "False")]
+                    except TooComplex:
+                        filtered = False
+            if not filtered:
+                rep.fail(R, "cursor-walk-filter", "the cursors handed to the step of the walk are selected by something other than `not attached yet`: %s" % src[:120], where=c.where())
+                return
+        try:
+            tb = Table(prog, cb, inline=1)
+        except TooComplex as e:
+            rep.fail(R, "cursor-walk-table", "one step of the cursor walk is not a loop-free decision: %s" % e)
+            return
+        # what the closure captured, by position: arg1.k -> canonical text in process_cursors
+        caps = {}
+        og = Origins(b)
+        for o in og.of_operand(c.args[1]):
+            if o[0] == "agg":
+                ops = b.blocks[o[1]]["stmts"][o[2]]["rv"]["ops"]
+                for k, op in enumerate(ops):
+                    caps["arg1.%d" % k] = canon(b, op)
+        steps.append((tb.rows, tb.effects, "arg2", caps, filtered))
+    if not rep.check(len(steps) == 1, R, "anchor:cursor-walk", "process_cursors no longer walks the tokens (outer loop) with one step per cursor (an inner loop or a for_each over the cursors): found %d" % len(steps)):
         return
-    h, L, nx = inner[0]
-    tt = b.blocks[nx.t["target"]]["term"]
-    some = ([t_ for v, t_ in tt.get("targets", []) if v == 1] or [tt.get("otherwise")])[0]
-    try:
-        tb = Table(prog, b, start=some, stop={h}, inline=1)
-    except TooComplex as e:
-        rep.fail(R, "cursor-walk-table", "one step of the cursor walk is not a loop-free decision: %s" % e)
-        return
-    cur = "next(" + canon(b, nx.args[0]) + ")@Some.0"
+    rows, effects, cur, caps, filtered = steps[0]
+
+    def sub(text):
+        text = str(text)
+        for k in sorted(caps, key=len, reverse=True):
+            text = re.sub(re.escape(k) + r"(?![\d.])", lambda m: caps[k], text)
+        return text
     bad = []
     n_att = n_adv = 0
-    for (cons, res), eff in zip(tb.rows, tb.effects):
+    for (cons, res), eff in zip(rows, effects):
         state = [c[2] for c in cons if c[0] == "is" and str(c[1]).startswith(cur) and c[2] in ("Some", "None")]
-        conds = [c for c in cons if c[0] == "cond"]
+        conds = [(c[0], sub(c[1]), c[2]) for c in cons if c[0] == "cond"]
         other = [c[1] for c in conds if not (re.match(r"^(Le|Lt|Ge|Gt)\(", c[1]) and cur in c[1] and "len(get_str(" in c[1])]
         if other:
             bad.append("an additional condition decides whether a cursor is searched for: %s" % other[0][:110])
@@ -707,7 +751,7 @@ def cursor_attach_table(prog, rep, R):
                 bad.append("a cursor that is already attached is modified")
             continue
         attaches = any(render(v).startswith("Some(") for k, v in eff)
-        advances = any("Sub(" in render(v) and "len(get_str(" in render(v) for k, v in eff)
+        advances = any("Sub(" in sub(render(v)) and "len(get_str(" in sub(render(v)) for k, v in eff)
         if attaches:
             n_att += 1
         elif advances:
@@ -716,7 +760,42 @@ def cursor_attach_table(prog, rep, R):
             bad.append("a cursor that is not attached yet is neither attached to the token nor advanced past it")
     rep.check(not bad and n_att >= 1 and n_adv >= 1, R, "cursor-walk-table",
               "one step of process_cursors' walk deviates from `attached: untouched; else remainder <= token length ? attach : advance`: %s" % (bad[:2] or "no attach / advance row"),
-              where="%s:%d" % (b.file, b.line), instance={"paths": len(tb.rows), "attach_rows": n_att, "advance_rows": n_adv, "deviations": bad[:3]})
+              where="%s:%d" % (b.file, b.line), instance={"paths": len(rows), "attach_rows": n_att, "advance_rows": n_adv, "deviations": bad[:3], "form": "for_each" if caps or filtered else "loop"})
+
+
+# adapters that take a closure: accepted when the closure looks at / changes nothing but the element it is given (and values that do not
+# come from the cursor list): what happens to one cursor cannot depend on another
+CURSOR_ELEMENT_LOCAL_OPS = {
+    "core::iter::traits::iterator::Iterator::filter": "selects by a test on the element itself",
+    "core::iter::traits::iterator::Iterator::for_each": "element-wise, complete",
+    "core::iter::traits::iterator::Iterator::all": "a side-effect-free question about every element (decides only whether the walk over the tokens goes on)",
+    "core::iter::traits::iterator::Iterator::any": "a side-effect-free question about every element",
+}
+
+
+def _closure_is_element_local(prog, b, site):
+    """the closure handed to `site` captures no collection / iterator of cursors, and — for the short-circuiting questions all / any — has
+    no effect at all (no store through a reference, no call other than side-effect-free queries)"""
+    clos = None
+    for a in site.args[1:]:
+        if a["k"] in ("copy", "move") and not a["place"]["p"]:
+            clos = b.locals[a["place"]["l"]].get("closure") or clos
+    cb = prog.body(norm(clos)) if clos else None
+    if cb is None:
+        return False
+    for u in cb.j.get("upvars", []):
+        t = str(u.get("ty", ""))
+        if "Cursor" in t and ("[" in t or "Vec<" in t or "Iter" in t or "iter::" in t):
+            return False
+    if site.callee.split("::")[-1] in ("all", "any"):
+        pure = ("core::option::Option::is_some", "core::option::Option::is_none", "core::cmp::PartialEq::eq", "core::cmp::PartialEq::ne", "core::cmp::PartialOrd::lt",
+                "core::cmp::PartialOrd::le", "core::cmp::PartialOrd::gt", "core::cmp::PartialOrd::ge")
+        if any((c.callee or "") not in pure for c in cb.calls()):
+            return False
+        for bb, i, st in cb.stmts():
+            if st["k"] == "assign" and st["dst"]["p"] and any(pe["k"] == "deref" for pe in st["dst"]["p"]):
+                return False
+    return True
 
 
 def cursor_independence(prog, rep, R):
@@ -742,6 +821,9 @@ def cursor_independence(prog, rep, R):
                 used = dst is not None and (c.callee not in ("core::slice::split_first", "core::slice::split_last") or
                                             any(any(x[0] == "call" and x[1] == c.bb for x in Origins(b).of_operand(a)) for k in b.calls() if k is not c and (k.callee or "").split("::")[-1] in ("into_iter", "iter", "next") for a in k.args))
                 rep.check(used, R, "cursor-print-op:%s" % c.callee.split("::")[-1], "output_new_cursors splits the cursor list but does not write out the rest", where=c.where(), instance={"op": c.callee.split("::")[-1], "use": PRINT_ONLY_OPS[c.callee]})
+                continue
+            if c.callee in CURSOR_ELEMENT_LOCAL_OPS and _closure_is_element_local(prog, b, c):
+                rep.ok(R, {"op": c.callee.split("::")[-1], "body": short(b.npath), "why": CURSOR_ELEMENT_LOCAL_OPS[c.callee]})
                 continue
             if not rep.check(c.callee in CURSOR_COLLECTION_OPS, R, "cursor-collection-op:%s" % (c.callee or "?").split("::")[-1],
                              "%s applies %s to a collection/iterator of cursors — only complete, element-wise traversals are reviewed (a cursor's result must not depend on the other cursors or their order)" % (short(b.npath), c.callee),
